@@ -213,7 +213,7 @@ theorem hrun_append (sf) : ∀ (a b : List HLabel) (hs hs1 hs2), hrun sf hs a = 
     intro b hs hs1 hs2 h1 h2
     simp only [hrun, List.cons_append] at h1 ⊢
     split at h1
-    · rename_i n hn; rw [hn]; exact ih _ _ _ _ h1 h2
+    · exact ih _ _ _ _ h1 h2
     · simp at h1
 
 theorem absRunH_hrun (sf fl) : ∀ (es : List Event) (hs labs hs'),
@@ -271,18 +271,30 @@ def WakePost (sf : Bool) (fl : Flavor) (out : Out) : Prop :=
 
 /-! ## symbolic execution -/
 
+theorem exists_pair_eq {α β} (a : α) (b : β) (P : α → β → Prop) : (∃ x y, (a = x ∧ b = y) ∧ P x y) ↔ P a b := by
+  constructor
+  · rintro ⟨x, y, ⟨rfl, rfl⟩, h⟩; exact h
+  · intro h; exact ⟨a, b, ⟨rfl, rfl⟩, h⟩
+theorem exists_pair_eq' {α β} (a : α) (b : β) (P : α → β → Prop) : (∃ x y, (x = a ∧ b = y) ∧ P x y) ↔ P a b := by
+  constructor
+  · rintro ⟨x, y, ⟨rfl, rfl⟩, h⟩; exact h
+  · intro h; exact ⟨a, b, ⟨rfl, rfl⟩, h⟩
+theorem exists_pair_eq0 {α β} (a : α) (b : β) : (∃ x y, (a = x ∧ b = y)) ↔ True := by
+  simp
+
 open Lean.Parser.Tactic in
 /-- unfold the IR semantics on a closed program text -/
 macro "exec_simp" "[" ts:simpLemma,* "]" : tactic =>
   `(tactic| simp [block, exec, eval, evalArgs, execPrim, bind, Except.bind, asLoc, Env.setVar, Env.setPriv, bindParams,
       setDst, evalUn, evalBin_add, evalBin_sub, evalBin_eq, evalBin_ne, boolV, Val.truthy, band_mask, enc_add_one,
-      enc_sub_one, enc_one_sub_one, $ts,*])
+      enc_sub_one, enc_one_sub_one, *, $ts,*])
 
 open Lean.Parser.Tactic in
 /-- run the abstraction and the local automata on a closed event list -/
 macro "abs_simp" "[" ts:simpLemma,* "]" : tactic =>
-  `(tactic| (simp [absRun, absEv, lstep, absRunH, absEvH, hrun, hstep, wakeArgs, Rel, decWord_enc, Event.loc?, $ts,*]
-             try (refine ⟨_, _, ⟨rfl, rfl⟩, ?_⟩; simp +contextual [*])))
+  `(tactic| (simp [absRun, absEv, lstep, absRunH, absEvH, hrun, hstep, wakeArgs, Rel, decWord_enc, Event.loc?,
+               exists_pair_eq, exists_pair_eq', *, $ts,*]
+             try (simp +contextual [*])))
 
 /-! ## memb -/
 
@@ -319,5 +331,236 @@ theorem memb_read_lock (sf : Bool) (fuel : Nat) (env : Env) (inp : List Val) (ls
     exec_simp [«_urcu_memb_read_lock», «_urcu_memb_read_lock_update», «urcu_memb_smp_mb_slave», hrel, hb, hn, hn0, hlt,
       LockPost]
     abs_simp [memb, hrel, hmax]
+
+set_option hygiene false in
+macro "memb_unlock_go" : tactic =>
+  `(tactic| (exec_simp [«_urcu_memb_read_unlock», «_urcu_memb_read_unlock_update_and_wakeup», «urcu_common_wake_up_gp»,
+               «urcu_memb_smp_mb_slave», hrel, hb, UnlockPost, WakePost] <;> abs_simp [memb, hrel]))
+
+/-- `hfx`: the futex word is an integer (the oracle value of the load of `gp->futex`) -/
+theorem memb_read_unlock (sf : Bool) (fuel : Nat) (env : Env) (inp : List Val) (ls : LState) (b : Int)
+    (hb : env.priv (.glob "urcu_memb_has_sys_membarrier") = some (.int b)) (hsf : sf = true → b = 0)
+    (hrel : Rel memb env ls) (hcs : ls.rpc = .cs) (hn : 1 ≤ ls.lnest)
+    (hfx : ∀ v, inp.head? = some v → ∃ n : Int, v = .int n) :
+    ∃ out, exec fuel «_urcu_memb_read_unlock» env inp = .ok out ∧ UnlockPost sf memb env ls out ∧
+      (ls.lnest = 1 → WakePost sf memb out) := by
+  obtain ⟨rpc, reg, held, lnest, lph⟩ := ls
+  obtain ⟨hrel, hlt⟩ := hrel
+  simp only [memb] at hrel
+  simp only at hlt hcs hn
+  subst hcs
+  by_cases h1 : lnest = 1
+  · subst h1
+    have hsf' : b = 0 ∨ (b ≠ 0 ∧ sf = false) := by
+      by_cases hb0 : b = 0
+      · exact .inl hb0
+      · right; cases sf <;> simp_all
+    clear hsf
+    rcases hsf' with rfl | ⟨hb0, rfl⟩
+    all_goals
+      cases inp with
+      | nil => memb_unlock_go
+      | cons v rest =>
+        obtain ⟨n, rfl⟩ := hfx v rfl
+        by_cases hv : n = -1
+        · subst hv
+          cases rest with
+          | nil => memb_unlock_go
+          | cons r rest => memb_unlock_go
+        · memb_unlock_go
+  · have hi : (lnest : Int) ≠ 1 := by omega
+    have h2 : 2 ≤ lnest := by omega
+    have h3 : lnest - 1 < 4294967296 := by omega
+    have h4 : ¬ lnest < lnest - 1 := by omega
+    memb_unlock_go
+
+/-- `rcu_read_ongoing()`: no shared access; returns L2's own-view nesting count -/
+theorem memb_read_ongoing (fuel : Nat) (env : Env) (inp : List Val) (ls : LState) (hrel : Rel memb env ls) :
+    exec fuel «_urcu_memb_read_ongoing» env inp =
+      .ok { events := [], env := env, inp := inp, ctl := .ret (some (.int ls.lnest)) } := by
+  obtain ⟨hrel, hlt⟩ := hrel
+  simp only [memb] at hrel
+  exec_simp [«_urcu_memb_read_ongoing», hrel]
+
+/-! ## mb (always a real fence: any `sf`) -/
+
+theorem mb_read_lock (sf : Bool) (fuel : Nat) (env : Env) (inp : List Val) (ls : LState)
+    (hrel : Rel mb env ls) (hcall : AtCall ls) (hreg : ls.reg = true) (hmax : ls.lnest + 1 < 4294967296)
+    (hgp : ∀ v, inp.head? = some v → GpShape v) :
+    ∃ out, exec fuel «_urcu_mb_read_lock» env inp = .ok out ∧ LockPost sf mb env ls out := by
+  obtain ⟨rpc, reg, held, lnest, lph⟩ := ls
+  obtain ⟨hrel, hlt⟩ := hrel
+  simp only [mb] at hrel
+  simp only at hlt hreg hmax
+  subst hreg
+  rcases hcall with ⟨h1, h2⟩ | ⟨h1, h2⟩
+  · simp only at h1 h2; subst h1; subst h2
+    cases inp with
+    | nil =>
+      exec_simp [«_urcu_mb_read_lock», «_urcu_mb_read_lock_update», hrel, LockPost]
+      abs_simp [mb, hrel]
+    | cons v rest =>
+      obtain ⟨g, rfl⟩ := hgp v rfl
+      exec_simp [«_urcu_mb_read_lock», «_urcu_mb_read_lock_update», hrel, LockPost]
+      abs_simp [mb, hrel]
+  · simp only at h1 h2; subst h1
+    have hn : (lnest : Int) ≠ 0 := by omega
+    have hn0 : lnest ≠ 0 := by omega
+    exec_simp [«_urcu_mb_read_lock», «_urcu_mb_read_lock_update», hrel, LockPost]
+    abs_simp [mb, hrel]
+
+set_option hygiene false in
+macro "mb_unlock_go" : tactic =>
+  `(tactic| (exec_simp [«_urcu_mb_read_unlock», «_urcu_mb_read_unlock_update_and_wakeup», «urcu_common_wake_up_gp»,
+               hrel, UnlockPost, WakePost] <;> abs_simp [mb, hrel]))
+
+theorem mb_read_unlock (sf : Bool) (fuel : Nat) (env : Env) (inp : List Val) (ls : LState)
+    (hrel : Rel mb env ls) (hcs : ls.rpc = .cs) (hn : 1 ≤ ls.lnest)
+    (hfx : ∀ v, inp.head? = some v → ∃ n : Int, v = .int n) :
+    ∃ out, exec fuel «_urcu_mb_read_unlock» env inp = .ok out ∧ UnlockPost sf mb env ls out ∧
+      (ls.lnest = 1 → WakePost sf mb out) := by
+  obtain ⟨rpc, reg, held, lnest, lph⟩ := ls
+  obtain ⟨hrel, hlt⟩ := hrel
+  simp only [mb] at hrel
+  simp only at hlt hcs hn
+  subst hcs
+  by_cases h1 : lnest = 1
+  · subst h1
+    cases inp with
+    | nil => mb_unlock_go
+    | cons v rest =>
+      obtain ⟨n, rfl⟩ := hfx v rfl
+      by_cases hv : n = -1
+      · subst hv
+        cases rest with
+        | nil => mb_unlock_go
+        | cons r rest => mb_unlock_go
+      · mb_unlock_go
+  · have hi : (lnest : Int) ≠ 1 := by omega
+    have h2 : 2 ≤ lnest := by omega
+    have h3 : lnest - 1 < 4294967296 := by omega
+    have h4 : ¬ lnest < lnest - 1 := by omega
+    mb_unlock_go
+
+theorem mb_read_ongoing (fuel : Nat) (env : Env) (inp : List Val) (ls : LState) (hrel : Rel mb env ls) :
+    exec fuel «_urcu_mb_read_ongoing» env inp =
+      .ok { events := [], env := env, inp := inp, ctl := .ret (some (.int ls.lnest)) } := by
+  obtain ⟨hrel, hlt⟩ := hrel
+  simp only [mb] at hrel
+  exec_simp [«_urcu_mb_read_ongoing», hrel]
+
+/-! ## bp (registered thread: `URCU_TLS(urcu_bp_reader) = &arena slot k`) -/
+
+theorem bp_read_lock (sf : Bool) (fuel : Nat) (env : Env) (inp : List Val) (ls : LState) (b : Int) (k : Nat)
+    (hp : env.priv (.tls "urcu_bp_reader") = some (.ptr (.obj k)))
+    (hb : env.priv (.glob "urcu_bp_has_sys_membarrier") = some (.int b)) (hsf : sf = true → b = 0)
+    (hrel : Rel (bp k) env ls) (hcall : AtCall ls) (hreg : ls.reg = true) (hmax : ls.lnest + 1 < 4294967296)
+    (hgp : ∀ v, inp.head? = some v → GpShape v) :
+    ∃ out, exec fuel «_urcu_bp_read_lock» env inp = .ok out ∧ LockPost sf (bp k) env ls out := by
+  obtain ⟨rpc, reg, held, lnest, lph⟩ := ls
+  obtain ⟨hrel, hlt⟩ := hrel
+  simp only [bp] at hrel
+  simp only at hlt hreg hmax
+  subst hreg
+  rcases hcall with ⟨h1, h2⟩ | ⟨h1, h2⟩
+  · simp only at h1 h2; subst h1; subst h2
+    cases inp with
+    | nil =>
+      exec_simp [«_urcu_bp_read_lock», «_urcu_bp_read_lock_update», «urcu_bp_smp_mb_slave», hrel, hb, hp, LockPost]
+      abs_simp [bp, hrel]
+    | cons v rest =>
+      obtain ⟨g, rfl⟩ := hgp v rfl
+      by_cases hb0 : b = 0
+      · subst hb0
+        exec_simp [«_urcu_bp_read_lock», «_urcu_bp_read_lock_update», «urcu_bp_smp_mb_slave», hrel, hb, hp, LockPost]
+        abs_simp [bp, hrel]
+      · have hsf' : sf = false := by cases sf <;> simp_all
+        subst hsf'
+        exec_simp [«_urcu_bp_read_lock», «_urcu_bp_read_lock_update», «urcu_bp_smp_mb_slave», hrel, hb, hp, LockPost]
+        abs_simp [bp, hrel]
+  · simp only at h1 h2; subst h1
+    have hn : (lnest : Int) ≠ 0 := by omega
+    have hn0 : lnest ≠ 0 := by omega
+    exec_simp [«_urcu_bp_read_lock», «_urcu_bp_read_lock_update», «urcu_bp_smp_mb_slave», hrel, hb, hp, LockPost]
+    abs_simp [bp, hrel]
+
+/-- bp has no futex: the unlock is slave barrier; store; compiler barrier, at every nesting level -/
+theorem bp_read_unlock (sf : Bool) (fuel : Nat) (env : Env) (inp : List Val) (ls : LState) (b : Int) (k : Nat)
+    (hp : env.priv (.tls "urcu_bp_reader") = some (.ptr (.obj k)))
+    (hb : env.priv (.glob "urcu_bp_has_sys_membarrier") = some (.int b))
+    (hrel : Rel (bp k) env ls) (hcs : ls.rpc = .cs) (hn : 1 ≤ ls.lnest) :
+    ∃ out, exec fuel «_urcu_bp_read_unlock» env inp = .ok out ∧ UnlockPost sf (bp k) env ls out ∧
+      out.ctl = .normal ∧ out.inp = inp := by
+  obtain ⟨rpc, reg, held, lnest, lph⟩ := ls
+  obtain ⟨hrel, hlt⟩ := hrel
+  simp only [bp] at hrel
+  simp only at hlt hcs hn
+  subst hcs
+  by_cases hb0 : b = 0 <;> by_cases h1 : lnest = 1
+  all_goals
+    first
+    | (subst h1
+       exec_simp [«_urcu_bp_read_unlock», «urcu_bp_smp_mb_slave», hrel, hb, hp, UnlockPost]
+       abs_simp [bp, hrel])
+    | (have h2 : 2 ≤ lnest := by omega
+       have h3 : lnest - 1 < 4294967296 := by omega
+       have h4 : ¬ lnest < lnest - 1 := by omega
+       exec_simp [«_urcu_bp_read_unlock», «urcu_bp_smp_mb_slave», hrel, hb, hp, UnlockPost]
+       abs_simp [bp, hrel])
+
+theorem bp_read_ongoing (fuel : Nat) (env : Env) (inp : List Val) (ls : LState) (k : Nat)
+    (hp : env.priv (.tls "urcu_bp_reader") = some (.ptr (.obj k))) (hrel : Rel (bp k) env ls) :
+    exec fuel «_urcu_bp_read_ongoing» env inp =
+      .ok { events := [], env := env, inp := inp, ctl := .ret (some (.int ls.lnest)) } := by
+  obtain ⟨hrel, hlt⟩ := hrel
+  simp only [bp] at hrel
+  exec_simp [«_urcu_bp_read_ongoing», hrel, hp]
+
+/-- the lazy-registration test at the head of `_urcu_bp_read_lock` / `_urcu_bp_read_ongoing` -/
+def bpRegisterTest : Stmt :=
+  .ifte (.un .lnot (.pload (.addrTls "urcu_bp_reader"))) (.prim none (.ext "urcu_bp_register") []) .skip
+
+/-- unregistered thread (`URCU_TLS(urcu_bp_reader) == NULL`): the generated text of `_urcu_bp_read_lock` /
+`_urcu_bp_read_ongoing` starts with `bpRegisterTest`, whose only event is the external call `urcu_bp_register()`.
+(The IR semantics cannot express that call's effect on the TLS pointer, so the rest of the unregistered path is not
+executed here: `exec` of the whole function reports "dereference of a non-pointer" after this event.) -/
+theorem bp_unregistered_first_event (fuel : Nat) (env : Env) (r : Val) (rest : List Val)
+    (hp : env.priv (.tls "urcu_bp_reader") = some (.int 0)) :
+    (∃ tail, «_urcu_bp_read_lock» = .seq bpRegisterTest tail) ∧
+    (∃ tail, «_urcu_bp_read_ongoing» = .seq bpRegisterTest tail) ∧
+    exec fuel bpRegisterTest env (r :: rest) =
+      .ok { events := [.ext "urcu_bp_register" [] r], env := env, inp := rest, ctl := .normal } ∧
+    exec fuel bpRegisterTest env [] = .ok { events := [], env := env, inp := [], ctl := .blocked } := by
+  refine ⟨⟨_, rfl⟩, ⟨_, rfl⟩, ?_, ?_⟩ <;> exec_simp [bpRegisterTest, hp]
+
+/-! ## `urcu_common_wake_up_gp` on its own: exact event shape -/
+
+/-- `ld gp->futex v; if v = -1 then (st gp->futex 0; futex_async(&gp->futex, FUTEX_WAKE, 1, NULL, NULL, 0))`, cut where
+the oracle ends -/
+def wakeEvents (G : Loc) : List Val → List Event
+  | [] => []
+  | v :: rest =>
+    .ld (.field G "futex") v 0 ::
+      (if v = .int (-1) then
+        .st (.field G "futex") (.int 0) 0 ::
+          (match rest with
+           | [] => []
+           | r :: _ => [.ext "futex_async" [.ptr (.field G "futex"), .int 1, .int 1, .int 0, .int 0, .int 0] r])
+       else [])
+
+theorem wake_up_gp_shape (fuel : Nat) (env : Env) (inp : List Val) (G : Loc)
+    (hg : env.vars "gp" = some (.ptr G)) :
+    ∃ out, exec fuel «urcu_common_wake_up_gp» env inp = .ok out ∧ out.events = wakeEvents G inp ∧
+      (out.ctl = .normal ∨ out.ctl = .blocked) ∧
+      (out.ctl = .blocked ↔ (inp = [] ∨ inp = [.int (-1)])) := by
+  cases inp with
+  | nil => exec_simp [«urcu_common_wake_up_gp», hg, wakeEvents]
+  | cons v rest =>
+    by_cases hv : v = .int (-1)
+    · subst hv
+      cases rest with
+      | nil => exec_simp [«urcu_common_wake_up_gp», hg, wakeEvents]
+      | cons r rest => exec_simp [«urcu_common_wake_up_gp», hg, wakeEvents]
+    · exec_simp [«urcu_common_wake_up_gp», hg, wakeEvents]
 
 end UrcuVerif.Src.Read
